@@ -1,6 +1,7 @@
 import NixModel.Lemmas.C16Schema
 import NixModel.Lemmas.C16Rec
 import NixModel.Lemmas.C16Bytes
+import NixModel.Lemmas.C16Getitem
 import NixModel.Pure.FrameShape
 import NixModel.Generated.FrameShape
 /-!
@@ -579,6 +580,33 @@ theorem C16_storage_reads (f0 : Frame) (hist : List Op) (hc : Created f0) :
   exact ⟨sReadAll_enc wf, sReadRow_enc wf, sReadRows_enc wf, sReadColumns_enc wf, sReadCellPos_enc wf,
     sReadCellName_enc wf⟩
 
+/-- **`frame[name]`, `frame[lo:hi]` and grouped columns are the table**: `frame[name]` is the column called `name`
+    (an unknown name is refused), `frame[lo:hi]` the rows `start … stop-1` of the clamped slice, and
+    `read_columns(…, group_by_cols=True)` returns for the j-th requested column its cells in the rows of the slice —
+    and each of them, computed on the stored bytes along the code's own branch of `read_data` (`frame[name]`: the
+    string-array branch; slices: the row-by-row conversion), returns the same -/
+theorem C16_getitem_is_table (f0 : Frame) (hist : List Op) (hc : Created f0) :
+    (∀ name col, getField (run f0 hist) name = .ok col → ∃ c, findCol (run f0 hist).cols name = some c ∧
+      col.length = (run f0 hist).rows.length ∧ ∀ r, r < (run f0 hist).rows.length → (run f0 hist).cell r c = col[r]?) ∧
+    (∀ name, findCol (run f0 hist).cols name = none → getField (run f0 hist) name = .error .indexError) ∧
+    (∀ lo hi r, r < (getSlice (run f0 hist) lo hi).length →
+      (getSlice (run f0 hist) lo hi)[r]? = (run f0 hist).rows[sliceStart (run f0 hist).rows.length lo + r]?) ∧
+    (∀ ks lo hi cols, ks.length ≠ 1 → readColumnsGrouped (run f0 hist) (.ok ks) lo hi = .ok cols →
+      cols.length = ks.length ∧ ∀ j (hj : j < ks.length), ∃ col, cols[j]? = some col ∧
+        col.length = (sliceList (run f0 hist).rows lo hi).length ∧
+        ∀ r, r < col.length → (run f0 hist).cell (sliceStart (run f0 hist).rows.length lo + r) ks[j] = col[r]?) ∧
+    (∀ name, sGetField (srun (encFrame f0) hist) name = getField (run f0 hist) name) ∧
+    (∀ lo hi, sGetSlice (srun (encFrame f0) hist) lo hi = .ok (getSlice (run f0 hist) lo hi)) ∧
+    (∀ sel lo hi, sReadColumnsGrouped (srun (encFrame f0) hist) sel lo hi =
+      readColumnsGrouped (run f0 hist) sel lo hi) := by
+  have wf := wf_run (created_wf hc) hist
+  rw [srun_enc (created_wf hc) hist]
+  refine ⟨fun _ _ h => getField_spec h, ?_, fun _ _ _ h => sliceList_get_lt h,
+    fun _ _ _ _ hk h => readColumnsGrouped_spec hk h, sGetField_enc wf, sGetSlice_enc wf,
+    sReadColumnsGrouped_enc wf⟩
+  intro name h
+  simp [getField, h]
+
 /-- **text survives storage**: decoding the stored bytes of any string gives the string back, and the conversion
     of a stored cell of the column's type is that cell — for every string (non-ASCII, empty, any length) -/
 theorem C16_text_roundtrip (s : String) (t : ColType) (v : Val) :
@@ -660,6 +688,9 @@ example : (createStructRec exRec).map (·.cols) = .ok [("a", .i8), ("label", .te
 example : CreatedR exFrame := CreatedR.lists (Created.dict exFrame_created)
 example : (stepR exFrame (.appendRowsRec ⟨[("a", .i8, 0)], [[.int 3]]⟩)).2 = some .valueError := by decide
 
+example : getField exFrame "s" = .ok [.str "x", .str "y"] ∧ getSlice exFrame (some (-1)) none = [[.int 2, .str "y"]] ∧
+    readColumnsGrouped exFrame (.ok [1, 1]) none none = .ok [[.str "x", .str "y"], [.str "x", .str "y"]] ∧
+    getField exFrame "nope" = .error .indexError := ⟨rfl, rfl, rfl, rfl⟩
 /-- the stored form of the example frame holds bytes; the byte-level reads convert them back -/
 example : sReadRow (encFrame exFrame) (-1) = .ok [.int 2, .str "y"] ∧
     sReadCellName (encFrame exFrame) "s" 0 = .ok (.str "x") := by
